@@ -66,7 +66,8 @@ LStep(L, a) ==
       [] a.a = "LRecv"  ->
            IF a.seq \in DOMAIN L.sent /\ LG_Committed(L, a) /\ LG_Unreceived(L, a) /\ ~LG_SelfReachedTimeout(L, a)
            THEN [res |-> "ok", L |-> [Tick(L, a) EXCEPT !.rcpt = @ \cup {a.seq}, !.log = Append(@, [ev |-> "recv", seq |-> a.seq])]]
-           ELSE [res |-> IF a.seq \in L.rcpt THEN "noop" ELSE "err", L |-> Tick(L, a)]
+           ELSE [res |-> IF a.seq \in L.rcpt /\ ~LG_SelfReachedTimeout(L, a) THEN "noop" ELSE "err",   \* the timeout is checked first
+                 L |-> Tick(L, a)]
       [] a.a = "LTimeout" ->
            IF a.seq \in DOMAIN L.sent /\ LG_Committed(L, a) /\ LG_Unreceived(L, a)
               /\ LG_ProofHeightNotAboveSelf(L, a) /\ LG_ClaimElapsed(L, a)
